@@ -24,6 +24,7 @@ THEOREMS = [
     "MjProof.C39.delete_absent_fails",
     "MjProof.C39.delete_fails_iff_absent",
     "MjProof.C39.delete_present",
+    "MjProof.C39.fp1_separator_insensitive",
     # need `normContains = true` (mj_containsBufferVFS normalises its argument)
     "MjProof.C39.has_iff_present",
     "MjProof.C39.has_iff_added_not_deleted_since",
